@@ -4,6 +4,7 @@ import (
 	"fmt"
 	"math/rand"
 	"regexp"
+	"strconv"
 	"strings"
 	"time"
 
@@ -23,8 +24,31 @@ import (
 var stmtCommentBodies = []string{" c ", "", "*", "/", "/ see /var/log */ x", " ; ", " ' ", " \" ", " -- ", "**", " a\nb ", "/*", "é"}
 var lineCommentBodies = []string{" c", "", "1", ".5", "2024-01-01 tmp", "-", " ' ", " ; DROP", "/*"}
 
+// longWsRun: a whitespace run far longer than any fixed-size buffer a scanner might collect it in
+// (round-7 seeded change C16-1 handed out a run of more than 64 runes as several WS tokens, and the
+// parser's regex look-ahead skips exactly one).
+func longWsRun(r *rand.Rand) string {
+	n := pick(r, []string{"63", "64", "65", "66", "127", "128", "129", "200", "255", "256", "257", "300", "1025", "4097"})
+	k, _ := strconv.Atoi(n)
+	var b strings.Builder
+	unit := pick(r, []string{" ", " ", "\t", "\n", "\r\n", "mixed"})
+	for b.Len() < k {
+		if unit == "mixed" {
+			b.WriteString(pick(r, []string{" ", "\t", "\n", "\r\n", "\r"}))
+		} else {
+			b.WriteString(unit)
+		}
+	}
+	return b.String()
+}
+
 func stmtRandGap(r *rand.Rand) string {
-	ws := func() string { return pick(r, wsPool) }
+	ws := func() string {
+		if r.Intn(30) == 0 {
+			return longWsRun(r)
+		}
+		return pick(r, wsPool)
+	}
 	g := ws()
 	for r.Intn(3) == 0 {
 		if r.Intn(2) == 0 {
